@@ -464,13 +464,16 @@ HandleUNSUBACK(a, p) ==
        /\ UNCHANGED <<nextId, nd, conn, now>>
   ELSE fx' = <<>> /\ UNCHANGED sv
 
+AbortTr(k) == [k EXCEPT !.tr = IF @ \in {"open", "closing"} THEN "aborted" ELSE @]
 \* p is a decoded packet, or [t |-> "malformed"] for anything the protocol cannot decode / does not know
 Deliver(a, p) ==
-  /\ conn[a].ps # "none" /\ conn[a].tr \in {"open", "closing"}
+  \* (A2: the environment delivers no further chunk after an abort or a loss; the packets of the chunk being processed
+  \*  when the abort happens are still handled, so the transport phase is not a guard here but in the instances)
+  /\ conn[a].ps # "none" /\ conn[a].tr # "lost"
   /\ stim' = [op |-> "recv", a |-> a, p |-> p]
   /\ IF p.t \in {"malformed", "CONNECT", "SUBSCRIBE", "UNSUBSCRIBE", "PINGREQ", "DISCONNECT"} THEN
        /\ fx' = <<Close(a, conn[a].g, "abort")>>
-       /\ SetConn(a, [conn[a] EXCEPT !.tr = "aborted"])
+       /\ SetConn(a, AbortTr(conn[a]))
        /\ UNCHANGED <<nextId, nd, sess, timers, now>>
      ELSE IF ~Handles(p.t, conn[a].ps) THEN fx' = <<>> /\ UNCHANGED sv
      ELSE CASE p.t = "CONNACK"  -> HandleCONNACK(a, p)
@@ -486,7 +489,6 @@ Deliver(a, p) ==
 -----------------------------------------------------------------------------
 (* a pending call runs: only one with the earliest deadline may (ideal reactor, A3) *)
 MinAt == IF timers = {} THEN 0 ELSE CHOOSE m \in {t.at : t \in timers} : \A t \in timers : m <= t.at
-AbortTr(k) == [k EXCEPT !.tr = IF @ \in {"open", "closing"} THEN "aborted" ELSE @]
 
 FireTimer(tm) ==
   /\ tm \in timers /\ tm.at = MinAt
